@@ -140,6 +140,20 @@ def check_spec(spec: NetSpec, label, st: Stats, plan):
                                          f"{nxt[k][j]!r}, unclamped model gives {e!r} at {vlabel}",
                                          {"spec": spec.describe(), "config": label, "P": P, "opts": [], "engine": "numpy"}))
                         break
+            # the same through the per-element API (init_vars / step of every element) with the density and queue options
+            # left at their defaults and the speed option switched off: nothing is clamped there either
+            from ..harness import np_manual_steps
+            st.inc("executions")
+            man = np_manual_steps(spec, [val], P)[0]
+            for k, lst in nxt.items():
+                for j, e in enumerate(lst):
+                    g = man[k][j]
+                    if not (same(g, e)):
+                        problems.append((f"C11/no-options-not-plain/element-api/{k[1]}", f"numpy, element-by-element stepping with "
+                                         f"default density/queue options: next {k[1]}[{j}] of {k[0]} = {g!r}, Network.step without "
+                                         f"options gives {e!r} at {vlabel}",
+                                         {"spec": spec.describe(), "config": label, "P": P, "opts": [], "engine": "numpy"}))
+                        break
         except Exception as e:  # noqa: BLE001
             problems.append((f"C11/exception/{exc_site(e)}/{type(e).__name__}", f"numpy plain: {exc_text(e)}",
                              {"spec": spec.describe(), "config": label, "P": P}))
